@@ -43,7 +43,7 @@ class StoreFault(RuntimeError):
 
 class ServerSystem:
     def __init__(self, prog, db_path=None, idle_timeout=10.0, backoff=(0.5, 3.0), crash_after_tick=None,
-                 status_faults=0, start_time=1000.0, run_no_base=0, single_connection=False):
+                 status_faults=0, start_time=1000.0, run_no_base=0, single_connection=False, initial_faults=0):
         self.prog = prog
         self.loop = vloop.new_loop(start=start_time, wall_epoch=100000.0)
         self._clocks = vloop.patched_clocks(self.loop)
@@ -63,6 +63,8 @@ class ServerSystem:
         self.crashed = False
         self.nticks = 0
         self.status_faults = status_faults
+        self.initial_faults = initial_faults      # transient failures of the FIRST write of a handler row (store.update)
+        self._start_tasks = {}
         self.handlers = {}          # handler_id -> run_id
         self.ext_sent = 0
         self.db_path = db_path
@@ -134,6 +136,15 @@ class ServerSystem:
             self.log({"e": "store_event", "rid": run_id})
 
         st.append_tick, st.update_handler_status, st.append_event = append_tick, update_handler_status, append_event
+        o_update = st.update
+
+        async def update(handler):
+            if self.initial_faults > 0 and handler.status == "running" and handler.result is None:
+                self.initial_faults -= 1
+                self.log({"e": "status_write", "status": "running", "ok": False, "initial": True})
+                raise StoreFault("injected store write failure (initial handler row)")
+            await o_update(handler)
+        st.update = update
 
     # ------------------------------------------------------------------ driving
     def _run(self, coro):
@@ -156,6 +167,13 @@ class ServerSystem:
         if t.done() and t.exception() is None:
             self.handlers[hid] = t.result().run_id
             return t.result().run_id
+        if not t.done():
+            # start_workflow is still inside its own retry/back-off (initial handler write failed): it finishes when time passes
+
+            def _late(tt, hid=hid):
+                if tt.exception() is None:
+                    self.handlers[hid] = tt.result().run_id
+            t.add_done_callback(_late)
         self.log({"e": "start_failed", "err": repr(t.exception()) if t.done() else "pending"})
         return None
 
